@@ -1,20 +1,29 @@
 chk("C16", "proof",
-    "Coq theorems for every document and every configuration (coq/Properties/C16.v, rose-tree induction over a statement-by-statement "
-    "transcription of LCDDocFilter.process, _replace_regions, _apply_bg_color, SupportedStylePropertiesFilter, RemoveAnimationFilter and "
-    "remove_region, coq/Model/Lcd.v): no animation step is left; every region has origin (sa,sa) and extent (100-2sa,100-2sa) in %; style keys "
-    "of elements, regions and initial values are within the configured whitelist (partial: tts:position outside regions survives, recorded); "
-    "every region reference names a remaining region; the remaining regions are pairwise different in (timing, resulting displayAlign); the "
-    "filter applied to its own result returns it unchanged; the filter succeeds outside two recorded triggers; and (C16_timeline_partial) the "
-    "leaves visible at any time under the TTML2 leaf specification of C01 are the same multiset before and after, for documents without "
-    "display/visibility/opacity and outside two recorded triggers. The transcription is compared inside Coq with the filtered document (or "
-    "the exception class) on generated documents x configurations, the clauses of Spec/LcdSpec.v are evaluated in Coq on the implementation's "
-    "result (static clauses, timeline at boundary times, computed colour/background/alignment through the snapshot model), and the harness "
-    "compares real snapshots before/after and a second application on the Python objects.",
+    "Coq theorems for every document, every configuration and (timeline) every rational time (coq/Properties/C16.v; rose-tree and list "
+    "induction over a statement-by-statement transcription of LCDDocFilter.process, _replace_regions, _apply_bg_color, "
+    "SupportedStylePropertiesFilter, RemoveAnimationFilter and remove_region, coq/Model/Lcd.v, which reuses the transcription of "
+    "StyleProcessors.Origin/Position/Extent.compute of Model/Isd.v): C16_no_anim (no animation step is left), C16_safe_area (every region "
+    "has origin (sa,sa) and extent (100-2sa,100-2sa) in %), C16_whitelist_partial (style keys of elements, regions and initial values within "
+    "the configured whitelist, configured colours the only values of their keys; partial: tts:position outside regions survives, refuted in "
+    "Findings/C16.v), C16_merged (remaining regions are source regions, pairwise different in timing/writing mode/resulting displayAlign), "
+    "C16_refs_redirected (every reference names a remaining region), C16_idempotent (lcd cfg (lcd cfg d) = lcd cfg d for safe_area < 50), "
+    "C16_total_partial (the filter succeeds outside the two recorded failure triggers), C16_timeline_partial / C16_timeline_leaves_partial "
+    "(at every time the leaves visible under the TTML2 leaf specification of C01, tagged by paragraph, are the same multiset before and "
+    "after, for documents without display/visibility/opacity and outside the two recorded triggers; the unconditional statement is refuted). "
+    "The transcription is compared inside Coq with the filtered document (or the exception class) on generated documents x configurations "
+    "(300 x 3 quick, 4000 x 3 thorough), including dictionary key order; the clauses of Spec/LcdSpec.v are evaluated in Coq on the "
+    "implementation's result (static clauses, timeline at boundary/epsilon/midpoint times, computed colour/background/alignment through the "
+    "snapshot model, model applied to the result); the harness compares the real snapshots (ISD.from_model) before/after as multisets of "
+    "(paragraph, leaf), the computed colour/background/alignment on the real snapshots, and a second application, on the Python objects.",
     "Trusted: Coq kernel; harness/isdlit.py literal printer; docgen + c16.redress generator; well-formedness hypotheses (unique style keys, "
-    "regions with unique ids, references name regions) taken from C15; exception classes compared as two codes; a model/code disagreement is "
-    "excused only when an origin/extent sum computed through floats lies within 1e-6 of 50 (counted). The snapshot semantics used for the "
-    "timeline is Spec/IsdSpec.v (tied to ISD.from_model by C01), not isd.py itself; the real-snapshot comparison is testing. Recorded "
-    "findings: failure on tts:position, on bg_color without body, tts:position surviving on content, end=0 treated as unbounded, nested "
-    "conflicting region attributes becoming visible, preserve_text_align not preserved across merged regions.",
-    "Coq theorems by rose-tree/list induction + in-Coq differential evaluation of model and specification on generated documents",
+    "regions with unique ids, references name regions, region geometry of its value class and not in em) taken from C15 / validate and "
+    "evaluated on every generated document (all inside); exception classes compared as two codes; a model/code disagreement is excused only "
+    "when an origin/extent sum that the code computes through floats lies within 1e-6 of 50 (counted; 0 so far). The timeline theorem is about "
+    "Spec/IsdSpec.v (tied to ISD.from_model by C01), not isd.py itself; 'the configured colour/background/alignment are what snapshots "
+    "compute' and the element-by-element redirection clause are compared, not proved. Recorded findings (findings_proposed/C16.txt): failure on "
+    "tts:position, failure on bg_color without body, tts:position surviving on content elements / initial values, end=0 treated as "
+    "unbounded, nested conflicting region attributes becoming visible after merging, preserve_text_align not preserved across merged regions. "
+    "Observation proved in Findings/C16.v: tts:writingMode never reaches the fingerprint (stripped before it is read).",
+    "Coq theorems by rose-tree/list induction (incl. a permutation argument for the timeline) + in-Coq differential evaluation of model "
+    "and specification on generated documents + snapshot comparison on the implementation",
     "DESIGN.md section 5 C16")
